@@ -127,7 +127,8 @@ CHECKS = {
         "loader (whose document-level dash substitution legitimately reads the tail) equality and the pull count. "
         "(b) decode_by_char / get_text_from / load on stub binary and text streams (the text stub decodes a chunk at a "
         "time like io.TextIOWrapper and has .buffer) whose bytes after the label are symbolic, also positioned after a "
-        "header of symbolic bytes, and loads() of a bytes object with a symbolic tail: exactly the longest all-ASCII "
+        "header of symbolic bytes (skipped with seek(), or read through the text layer in chunks of 4 bytes so that "
+        "the buffer underneath has read ahead), and loads() of a bytes object with a symbolic tail: exactly the longest all-ASCII "
         "prefix, same module as the str entry; with the label ending in END and no line end, every entry point does "
         "what loads does with the decodable prefix (nothing after an undecodable byte joins END). (c) dump to stub text "
         "/ binary streams writes exactly dumps(...) / its UTF-8 encoding once and returns what write returns, "
@@ -167,7 +168,9 @@ CHECKS = {
         "= level x indent, '=' alignment per block of sibling assignments whose padded form (line end counted) fits on a "
         "line, upper-case identifier names "
         "<= 30 chars (ODL/PDS3), no TAB (PDS3), symbol strings without format effectors, final END (+ line end). "
-        "Outside: the units-only-after-numbers rule is exercised only through encoder refusals, longer leaves.",
+        "For ODL/PDS3 also with the symbolic string as the UNITS of a scalar and of a sequence element (no TAB there either). "
+        "Outside: the units-only-after-numbers rule is exercised only through encoder refusals, longer leaves, block names "
+        "(taken as valid, like parameter names of PVL/ISIS).",
    ref='5 (C12)', technique='symbolic execution (symx) of the encoders; independent reader evaluated on the symbolic output; z3; bounded'),
  'C13': dict(
    text="Bounded symbolic execution of encode/dumps called twice on the same module object for the C01 shapes "
@@ -270,9 +273,11 @@ CHECKS = {
         "returns / ValueError / LexerError) and the verbosity 0-3 are solver-chosen: the verdict is (load succeeded, "
         "dump succeeded or None) and the report is produced. pvl_translate.formats[F].dump(module, stream) writes exactly pvl.dumps(module, "
         "encoder=<F's encoder class>()) for modules with a symbolic string leaf; JSON on six concrete labels (repeated names, "
-        "nesting, an empty value): the document read with repeated keys kept is the label's list of (name, value) pairs. NOT "
-        "reachable and not claimed: argparse, FileType opening, stdin/stdout, logging text, exit status - main(argv) "
-        "is exercised only by the existing tests.",
+        "nesting, an empty value): the document read with repeated keys kept is the label's list of (name, value) pairs. "
+        "pvl_translate.main(['-of', F, in, out]) itself with argparse.FileType replaced by stub streams (argparse runs; the "
+        "stubs record mode, encoding and errors): the bytes of the output file (UTF-8 / ISO 8859-1 modelled per symbolic "
+        "character, locale = UTF-8) equal those pvl.dump writes for the loaded label, string of 0-1 (quick) / 0-2 characters "
+        "over ISO 8859-1. NOT reachable and not claimed: real file opening, stdin/stdout, logging text, exit status.",
    ref='5 (C20), 6', technique='symbolic execution (symx) of pvl_flavor/report/format writers vs an independent dialect table and layout; z3'),
 }
 NA_REASON = "check not built yet (construction in progress, see DESIGN.md section 8)"
